@@ -2,6 +2,7 @@ import SimbodyModel.Proto
 import SimbodyModel.C36
 /-! Driver for C36.  Records (all numbers as hex doubles, `<cls>` = input class tag):
 * `obb.q  cls X(12) size(3) p(3) o(3) d(3)`            → contains, nearest point + dist², ray hit/distance
+* `tri.q cls tetra(12) face p(3) L0 L1 L2` → `O tri.q point(3) u v` (`findNearestPointToFace`)
 * `mesh.q cls kind seed sub nq (p(3) o(3) d(3))* nV V… nF F… <tree>`  → per query `O mesh.nearest d² point` and `O mesh.ray hit dist`
   tree (pre-order): `1 box(15) <child1> <child2>` | `0 box(15) k f₁…f_k`, box = rotation rows(9) origin(3) size(3)
 * `sph2 cls p0 p1`, `sph3 cls a b c`                    → centre, radius
@@ -86,6 +87,10 @@ def handle (fn : String) (a : Array Float) : List String :=
     let ray := match b.ray negInf o d with | none => " 0" | some t => " 1" ++ fl [t]
     ["O obb.q " ++ (if b.contains p then "1" else "0") ++ fl (np.toList ++ [b.dist2 p]) ++ ray]
   | "mesh.q" => meshQuery a
+  | "tri.q" =>      -- tetra(12) face(1) p(3) + the face's vertices in the library's order (9): `findNearestPointToFace`, uv = (1-s-t, s)
+    let p := v3at a 13
+    let r := triNearest (v3at a 16) (v3at a 19) (v3at a 22) p
+    ["O tri.q" ++ fl (r.1.toList ++ [1 - r.2.1 - r.2.2, r.2.1])]
   | "sph2" => let s := sphere2 Float.sqrt tolGeo (v3at a 0) (v3at a 3); ["O sph2" ++ fl (s.1.toList ++ [s.2])]
   | "sph3" => let s := sphere3 Float.sqrt tolGeo (v3at a 0) (v3at a 3) (v3at a 6) false; ["O sph3" ++ fl (s.1.toList ++ [s.2])]
   | "topo" => ["O topo " ++ (if (topoOf a).consistent then "1" else "0")]
